@@ -22,7 +22,7 @@ type dgen struct {
 	d     *spec.Design
 	feats map[string]bool
 	seq   int
-	focus string // "", "views", "security": biases the draw towards the features a property is about
+	focus string // "", "views", "security", "dir" (what generated FILES depend on: several media types per endpoint): biases the draw towards the features a property is about
 }
 
 // chance draws true with probability num/den, or hi/den when the generator is focused on topic.
@@ -491,7 +491,7 @@ func (g *dgen) method(svc *spec.Service, idx int) *spec.Method {
 		m.Responses = []*spec.Response{resp}
 		status = resp.Status
 		// a second success response selected by a tag value, with its own status and media type
-		if t.Draw("tagged-response", 4) == 0 {
+		if g.chance("tagged-response", "dir", 1, 3, 4) {
 			tagName := "state"
 			for r.Field(tagName) != nil {
 				tagName += "t"
@@ -502,7 +502,7 @@ func (g *dgen) method(svc *spec.Service, idx int) *spec.Method {
 			if second.Status == resp.Status {
 				second.Status = 206
 			}
-			if t.Draw("response-ct", 2) == 0 {
+			if g.chance("response-ct", "dir", 1, 2, 2) {
 				// media types that still mean JSON, so every oracle keeps reading the body
 				resp.CT = "application/json"
 				second.CT = "application/vnd.verif.pending+json"
